@@ -56,6 +56,8 @@ simstream::Pipe* PIPE;
 Stub* STUB;
 int n_callers, n_calls;
 uint64_t reset_after_resp = ~0ULL; int reset_errno = 0; bool eof_instead = false;
+bool real_server = false;          // the far end is the library's own Skeleton (serve() over the same pipe), not the scripted responder
+Skeleton* SK = nullptr;
 bool early_answers = false;        // hostile peer: answers a tag whose request is still being transmitted, then stalls
 uint64_t small_pipe = 0;           // capacity of the request direction in bytes (0 = unlimited): sends block
 bool per_wait_timeouts = false;     // SimStream: the stream timeout bounds each wait for bytes instead of the whole read
@@ -184,6 +186,51 @@ void caller(int me) {
         if (sim::rnd(2)) thread_join(jh);                    // sequential caller
         else { thread_usleep(sim::rnd(200)); thread_join(jh); }
     }
+}
+
+// the services behind the real Skeleton: every request is answered after its planned delay, so completions are out of order
+struct Services {
+    template <typename OP>
+    int serve_fixed(typename OP::Request* req, typename OP::Response* resp) {
+        uint64_t id = req->id;
+        if (id < calls.size() && calls[id].delay_us) thread_usleep(calls[id].delay_us);
+        resp->id = id; resp->y = g(id, req->x);
+        for (size_t i = 0; i < sizeof(resp->fill); i++) resp->fill[i] = gfill(id, i);
+        sim::probe("served_by_real_skeleton");
+        return 0;
+    }
+    int do_rpc_service(OpS::Request* q, OpS::Response* r, IOVector*, IStream*) { return serve_fixed<OpS>(q, r); }
+    int do_rpc_service(OpM::Request* q, OpM::Response* r, IOVector*, IStream*) { return serve_fixed<OpM>(q, r); }
+    int do_rpc_service(OpL::Request* q, OpL::Response* r, IOVector*, IStream*) { return serve_fixed<OpL>(q, r); }
+    int do_rpc_service(OpV::Request* q, OpV::Response* r, IOVector* iov, IStream*) {
+        uint64_t id = q->id;
+        if (id < calls.size() && calls[id].delay_us) thread_usleep(calls[id].delay_us);
+        size_t L = vlen(id);
+        char* p = (char*)iov->malloc(L);
+        for (size_t i = 0; i < L; i++) p[i] = gfill(id, i);
+        r->id = id; r->y = g(id, q->x); r->data.assign(p, L);
+        sim::probe("served_by_real_skeleton");
+        return 0;
+    }
+    // the untyped function (method 5): the payload is the plain byte string
+    int raw(iovector* req, Skeleton::ResponseSender rs, IStream*) {
+        OpV::Request q; if (req->sum() < sizeof(q)) return -1;
+        iovector_view v = req->view(); size_t off = 0;
+        for (int i = 0; i < v.iovcnt && off < sizeof(q); i++) { size_t n = std::min(v.iov[i].iov_len, sizeof(q) - off); memcpy((char*)&q + off, v.iov[i].iov_base, n); off += n; }
+        uint64_t id = q.id;
+        if (id < calls.size() && calls[id].delay_us) thread_usleep(calls[id].delay_us);
+        size_t L = vlen(id);
+        IOVector resp; if (resp.push_back(L) != L) return -1;
+        char* p = (char*)resp.back().iov_base;
+        for (size_t i = 0; i < L; i++) p[i] = gfill(id, i);
+        sim::probe("served_by_real_skeleton");
+        return rs(&resp);
+    }
+} SERVICES;
+
+void real_server_thread(int) {
+    SK->serve(&PIPE->b);          // returns when the client side has closed the connection
+    sim::NoSched ns; responder_done = 1;
 }
 
 struct Pending { uint64_t at_us; int idx; uint64_t tag; uint32_t fn; };
@@ -363,6 +410,7 @@ void harness_run(uint64_t seed) {
         }
     }
     n_calls = calls.size();
+    real_server = hostile == 0 && sim::rnd(2) == 0;
     per_wait_timeouts = sim::rnd(3) == 0;
     if (hostile && sim::rnd(5) == 0) {
         early_answers = true; small_pipe = 16 + sim::rnd(100);
@@ -403,23 +451,33 @@ void harness_run(uint64_t seed) {
     int s = sim::rnd(4);
     if (s == 1) seg = {1}; else if (s == 2) for (int i = 0; i < 6; i++) seg.push_back(1 + sim::rnd(60)); else if (s == 3) for (int i = 0; i < 6; i++) seg.push_back(1 + sim::rnd(5000));
     char plan[300]; snprintf(plan, sizeof plan, "{\"callers\":%d,\"calls\":%d,\"server\":\"%s\",\"reset_after_responses\":%lld,\"segmentation\":%d}", n_callers, n_calls,
-                             hostile == 0 ? "benign" : hostile == 1 ? "hostile responses" : "hostile + connection faults", (long long)(reset_after_resp == ~0ULL ? -1 : (long long)reset_after_resp), s);
+                             real_server ? "the library's Skeleton" : hostile == 0 ? "benign" : hostile == 1 ? "hostile responses" : "hostile + connection faults", (long long)(reset_after_resp == ~0ULL ? -1 : (long long)reset_after_resp), s);
     sim::extra_json("plan", plan);
     char nb[32]; snprintf(nb, sizeof nb, "%d", n_calls); sim::extra_json("nops", nb);
     sim::set_poison_property("use-after-return");
     set_photon_thread_stack_allocator(Delegate<void*, size_t>(&stk_alloc, nullptr), Delegate<void, void*, size_t>(&stk_dealloc, nullptr));
     W.nvcpu = 1;
     for (int k = 0; k < n_callers; k++) W.add(0, [k](int) { caller(k); });
-    W.add(0, [](int id) { responder(id); });
+    if (real_server) {
+        W.add(0, [](int id) { real_server_thread(id); });
+        W.add(0, [](int) { for (;;) { { sim::NoSched ns; if (calls_done == n_calls) break; } thread_usleep(200); } PIPE->a.shutdown(ShutdownHow::Write); });   // the client hangs up
+    } else W.add(0, [](int id) { responder(id); });
     W.vcpu_pre = [](int) {
         PIPE = new simstream::Pipe; PIPE->b2a.seg = seg; PIPE->a.tmo_per_wait = per_wait_timeouts; if (small_pipe) PIPE->a2b.capacity = small_pipe;
         STUB = new_rpc_stub(&PIPE->a, false);
+        if (real_server) {
+            PIPE->a2b.seg = seg;
+            SK = new_skeleton(8);
+            SK->register_service<OpS, OpM, OpL, OpV>(&SERVICES);
+            SK->add_function(FunctionID(0x7e57, 5), Skeleton::Function(&SERVICES, &Services::raw));
+        }
     };
     W.vcpu_end = [](int) {
         // (d) nothing is left registered once every call has returned
         int q = STUB->get_queue_count();
         if (q != 0) HX_VIOL("queue-leak", "get_queue_count() = %d after every call has returned", q);
         delete STUB;
+        if (real_server) delete SK;
     };
     sim::start();
     W.deadline_ns = sim::now_ns() + 30000000000ULL;
